@@ -57,10 +57,67 @@ impl Val for BoxV {
     }
 }
 
+/// Conservation monitor for values: every value that exists (created through `mk`, `clone` or
+/// `default`, not yet dropped) is counted. At a quiescent point the count must equal the number of
+/// values physically present in the arenas of the maps of the (single) live world: fewer means two
+/// owners of one value (bitwise copy / double drop), more means values that nobody owns any more
+/// (leaked / forgotten).
+pub static LIVE_VALUES: std::sync::atomic::AtomicI64 = std::sync::atomic::AtomicI64::new(0);
+pub static LIVE_WORLDS: std::sync::atomic::AtomicI64 = std::sync::atomic::AtomicI64::new(0);
+
+#[derive(Debug)]
+pub struct Tr<I>(I);
+impl<I: Clone> Clone for Tr<I> {
+    fn clone(&self) -> Self {
+        LIVE_VALUES.fetch_add(1, Ordering::SeqCst);
+        Tr(self.0.clone())
+    }
+}
+impl<I> Drop for Tr<I> {
+    fn drop(&mut self) {
+        LIVE_VALUES.fetch_sub(1, Ordering::SeqCst);
+    }
+}
+impl<I: PartialEq> PartialEq for Tr<I> {
+    fn eq(&self, o: &Self) -> bool {
+        self.0 == o.0
+    }
+}
+impl<I: Default> Default for Tr<I> {
+    fn default() -> Self {
+        LIVE_VALUES.fetch_add(1, Ordering::SeqCst);
+        Tr(I::default())
+    }
+}
+impl<I: Val> Val for Tr<I> {
+    fn mk(x: u64) -> Self {
+        LIVE_VALUES.fetch_add(1, Ordering::SeqCst);
+        Tr(I::mk(x))
+    }
+    fn get(&self) -> u64 {
+        self.0.get()
+    }
+    fn put(&mut self, x: u64) {
+        self.0.put(x)
+    }
+}
+
+impl serde::Serialize for Tr<u64> {
+    fn serialize<S: serde::Serializer>(&self, s: S) -> Result<S::Ok, S::Error> {
+        s.serialize_u64(self.0)
+    }
+}
+impl<'de> serde::Deserialize<'de> for Tr<u64> {
+    fn deserialize<D: serde::Deserializer<'de>>(d: D) -> Result<Self, D::Error> {
+        let x = <u64 as serde::Deserialize>::deserialize(d)?;
+        Ok(<Tr<u64> as Val>::mk(x))
+    }
+}
+
 #[cfg(not(feature = "boxval"))]
-pub type V = u64;
+pub type V = Tr<u64>;
 #[cfg(feature = "boxval")]
-pub type V = BoxV;
+pub type V = Tr<BoxV>;
 
 /// global write sequence for the thread workload
 static SEQ: AtomicU64 = AtomicU64::new(0);
@@ -93,6 +150,9 @@ pub trait WorldApi {
     /// `Debug` output length of the container and of a view (C20: formatting must return normally);
     /// also drives the `Default` iterators
     fn debug_fmt(&mut self, s: Slot, q: EP) -> usize;
+    /// (values alive in the process, values physically present in the arenas of all maps of this
+    /// world); None while another world is alive (the count is global)
+    fn value_accounting(&self) -> Option<(i64, usize)>;
 }
 
 pub struct World<K: Kind> {
@@ -104,7 +164,14 @@ pub struct World<K: Kind> {
 
 impl<K: Kind> World<K> {
     pub fn new() -> Self {
+        LIVE_WORLDS.fetch_add(1, Ordering::SeqCst);
         World { maps: Vec::new(), sets: Vec::new(), pred_log: Vec::new(), copies: 0 }
+    }
+}
+
+impl<K: Kind> Drop for World<K> {
+    fn drop(&mut self) {
+        LIVE_WORLDS.fetch_sub(1, Ordering::SeqCst);
     }
 }
 
@@ -379,12 +446,35 @@ where
 // views (generic over the value type and the container)
 // ---------------------------------------------------------------------------------------------
 
+thread_local! {
+    /// cheap deterministic choice of the protocol mode for view iterators
+    static VIEW_RNG: std::cell::Cell<u64> = std::cell::Cell::new(0x9e3779b97f4a7c15);
+}
+
+fn view_choice(n: usize) -> (u64, usize, Fin) {
+    let r = VIEW_RNG.with(|c| {
+        let x = mix(c.get().wrapping_add(0x9e3779b97f4a7c15));
+        c.set(x);
+        x
+    });
+    let k = ((r >> 8) as usize) % (n + 2);
+    let fin = match (r >> 40) % 7 {
+        0 | 1 => Fin::Fold,
+        2 => Fin::ForEach,
+        3 => Fin::Collect,
+        4 => Fin::Last,
+        5 => Fin::Count,
+        _ => Fin::Nth(((r >> 50) % 4) as usize),
+    };
+    (r, k, fin)
+}
+
 fn obs_view<K: Kind, T: Val>(v: &TrieView<'_, K::P, T>, ok: bool) -> StepObs {
     // `IntoIterator for TrieView` is the same traversal as `iter()`
     let a: Vec<Item> = v.clone().into_iter().map(|(p, x)| it::<K, T>(p, x)).collect();
     let b: Vec<Item> = v.iter().map(|(p, x)| it::<K, T>(p, x)).collect();
     assert!(a == b, "ORACLE:TrieView::into_iter differs from iter()");
-    StepObs {
+    let mut o = StepObs {
         ok,
         prefix: K::dec(v.prefix()),
         value: v.value().map(|x| x.get()),
@@ -395,11 +485,32 @@ fn obs_view<K: Kind, T: Val>(v: &TrieView<'_, K::P, T>, ok: bool) -> StepObs {
         has_left: v.left().is_some(),
         has_right: v.right().is_some(),
         reborrow_same: true,
+        self_bad: None,
+    };
+    // a clone of the view is the same view
+    let c = v.clone();
+    if K::dec(c.prefix()) != o.prefix || c.value().map(|x| x.get()) != o.value || c.left().is_some() != o.has_left || c.right().is_some() != o.has_right || c.prefix_value().map(|(p, x)| it::<K, T>(p, x)) != o.pv {
+        o.self_bad = Some(("clone-differs".into(), format!("clone() of the view at {:?} is positioned at {:?} (value {:?}, left {}, right {})", o.prefix, K::dec(c.prefix()), c.value().map(|x| x.get()), c.left().is_some(), c.right().is_some())));
+        return o;
     }
+    // every way of consuming the view's iterators agrees with plain next() calls
+    let n = o.entries.len();
+    let (r, k, fin) = view_choice(n);
+    let cap = 4 * n + 16;
+    let (which, p, full): (&str, ListObs, Vec<Item>) = match r % 4 {
+        0 => ("iter", drain_proto(v.iter(), cap, k, fin, |(p, x)| it::<K, T>(p, x)), o.entries.clone()),
+        1 => ("keys", drain_proto(v.keys(), cap, k, fin, |p| (K::dec(p), NO_VAL)), o.keys.iter().map(|e| (*e, NO_VAL)).collect()),
+        2 => ("values", drain_proto(v.values(), cap, k, fin, |x| (NO_EP, x.get())), o.values.iter().map(|x| (NO_EP, *x)).collect()),
+        _ => ("into_iter", drain_proto(v.clone().into_iter(), cap, k, fin, |(p, x)| it::<K, T>(p, x)), o.entries.clone()),
+    };
+    if let Some(msg) = crate::hist::proto_eval(&p, &full) {
+        o.self_bad = Some((format!("{}-protocol/{}", which, crate::hist::fin_name(fin)), format!("view at {:?}: {}(): {}", o.prefix, which, msg)));
+    }
+    o
 }
 
 fn lost() -> StepObs {
-    StepObs { ok: false, prefix: NO_EP, value: None, pv: None, entries: vec![], keys: vec![], values: vec![], has_left: false, has_right: false, reborrow_same: true }
+    StepObs { ok: false, prefix: NO_EP, value: None, pv: None, entries: vec![], keys: vec![], values: vec![], has_left: false, has_right: false, reborrow_same: true, self_bad: None }
 }
 
 fn run_view<'a, K: Kind, T: Val>(root: Option<TrieView<'a, K::P, T>>, nav: &[Nav]) -> (Vec<StepObs>, Option<TrieView<'a, K::P, T>>) {
@@ -444,9 +555,24 @@ fn obs_view_mut<K: Kind, T: Val>(v: &mut TrieViewMut<'_, K::P, T>, ok: bool) -> 
     // the read-only re-borrow must show the very same position
     let ro = obs_view::<K, T>(&(&*v).view(), ok);
     let entries: Vec<Item> = v.iter_mut().map(|(p, x)| it::<K, T>(p, x)).collect();
-    let values = v.values_mut().map(|x| x.get()).collect();
+    let values: Vec<u64> = v.values_mut().map(|x| x.get()).collect();
     let reborrow_same = ro.prefix == prefix && ro.value == value && ro.pv == pv && ro.has_left == has_left && ro.has_right == has_right && ro.entries == entries;
-    StepObs { ok, prefix, value, pv, entries, keys, values, has_left, has_right, reborrow_same }
+    let mut self_bad = ro.self_bad.clone();
+    if self_bad.is_none() {
+        let n = entries.len();
+        let (r, k, fin) = view_choice(n);
+        let cap = 4 * n + 16;
+        let (which, p, full): (&str, ListObs, Vec<Item>) = if r % 2 == 0 {
+            ("iter_mut", drain_proto(v.iter_mut(), cap, k, fin, |(p, x)| it::<K, T>(p, x)), entries.clone())
+        } else {
+            let vals: &Vec<u64> = &values;
+            ("values_mut", drain_proto(v.values_mut(), cap, k, fin, |x| (NO_EP, x.get())), vals.iter().map(|x| (NO_EP, *x)).collect())
+        };
+        if let Some(msg) = crate::hist::proto_eval(&p, &full) {
+            self_bad = Some((format!("{}-protocol/{}", which, crate::hist::fin_name(fin)), format!("mutable view at {:?}: {}(): {}", prefix, which, msg)));
+        }
+    }
+    StepObs { ok, prefix, value, pv, entries, keys, values, has_left, has_right, reborrow_same, self_bad }
 }
 
 fn run_view_mut<'a, K: Kind, T: Val>(root: Option<TrieViewMut<'a, K::P, T>>, nav: &[Nav]) -> (Vec<StepObs>, Option<TrieViewMut<'a, K::P, T>>) {
@@ -568,10 +694,12 @@ fn lpm<K: Kind, T: Val>(x: Option<(&K::P, &T)>) -> Option<Item> {
     x.map(|(p, v)| it::<K, T>(p, v))
 }
 
-fn pair_ro<'a, K: Kind, L: Val, R: Val>(a: &TrieView<'a, K::P, L>, b: TrieView<'a, K::P, R>, op: PairOp, cap: usize) -> (Vec<SetItem>, bool, bool) {
+fn pair_ro<'a, K: Kind, L: Val, R: Val>(a: &TrieView<'a, K::P, L>, b: TrieView<'a, K::P, R>, op: PairOp, cap: usize) -> (Vec<SetItem>, bool, bool, Option<(String, String)>) {
     let mut items = Vec::new();
     let mut fused = true;
     let mut exceeded = false;
+    let mut proto_bad: Option<(String, String)> = None;
+    let b2 = b.clone();
     macro_rules! run {
         ($iter:expr, $conv:expr) => {{
             let mut iter = $iter;
@@ -629,7 +757,116 @@ fn pair_ro<'a, K: Kind, L: Val, R: Val>(a: &TrieView<'a, K::P, L>, b: TrieView<'
         }),
         _ => unreachable!(),
     }
-    (items, fused, exceeded)
+    if !exceeded {
+        // the same operation consumed another way (only the selection is compared here: key and tag)
+        let full: Vec<(Key, Tag)> = items.iter().map(|i| (i.key, i.tag)).collect();
+        let (_, k, fin) = view_choice(full.len());
+        let msg = match op.base() {
+            PairOp::Union => proto_generic(
+                a.union(b2),
+                k,
+                fin,
+                cap,
+                |u: UnionItem<'a, K::P, L, R>| {
+                    let key = K::dec(u.prefix()).key();
+                    (key, match u {
+                        UnionItem::Left { .. } => Tag::Left,
+                        UnionItem::Right { .. } => Tag::Right,
+                        UnionItem::Both { .. } => Tag::Both,
+                    })
+                },
+                &full,
+            ),
+            PairOp::Intersection => proto_generic(a.intersection(b2), k, fin, cap, |(p, _, _): (&K::P, &L, &R)| (K::dec(p).key(), Tag::Both), &full),
+            PairOp::Difference => proto_generic(a.difference(b2), k, fin, cap, |d: DifferenceItem<'a, K::P, L, R>| (K::dec(d.prefix).key(), Tag::Left), &full),
+            _ => proto_generic(a.covering_difference(b2), k, fin, cap, |(p, _): (&K::P, &L)| (K::dec(p).key(), Tag::Left), &full),
+        };
+        if let Some(m) = msg {
+            proto_bad = Some((format!("protocol/{}", crate::hist::fin_name(fin)), m));
+        }
+    }
+    (items, fused, exceeded, proto_bad)
+}
+
+/// protocol-mode consumption of any iterator judged against its plain `next()` sequence `full`
+fn proto_generic<I: Iterator, X: PartialEq + Clone + std::fmt::Debug, F: FnMut(I::Item) -> X>(mut it: I, k: usize, fin: Fin, cap: usize, mut conv: F, full: &[X]) -> Option<String> {
+    let n = full.len();
+    let mut got: Vec<X> = Vec::new();
+    let mut hints: Vec<(usize, usize, Option<usize>)> = Vec::new();
+    for _ in 0..k {
+        let h = it.size_hint();
+        hints.push((got.len(), h.0, h.1));
+        match it.next() {
+            Some(x) => got.push(conv(x)),
+            None => break,
+        }
+    }
+    let head = got.len();
+    let h = it.size_hint();
+    hints.push((head, h.0, h.1));
+    if head != k.min(n) || got[..] != full[..head] {
+        return Some(format!("first {} next() calls gave {:?}, a plain traversal gives {:?}", k, got, full));
+    }
+    for (y, lo, hi) in &hints {
+        let rem = n - *y;
+        if *lo > rem || hi.map_or(false, |h| h < rem) {
+            return Some(format!("size_hint() = ({}, {:?}) after {} items, but {} more items follow", lo, hi, y, rem));
+        }
+    }
+    let rem = &full[head..];
+    match fin {
+        Fin::Fold | Fin::ForEach | Fin::Collect => {
+            let mut over = false;
+            {
+                let mut push = |x: I::Item| {
+                    if got.len() <= cap {
+                        got.push(conv(x));
+                    } else {
+                        over = true;
+                    }
+                };
+                match fin {
+                    Fin::Fold => it.fold((), |(), x| push(x)),
+                    Fin::ForEach => it.for_each(|x| push(x)),
+                    _ => {
+                        for x in it.collect::<Vec<_>>() {
+                            push(x);
+                        }
+                    }
+                }
+            }
+            if over || got[..] != full[..] {
+                return Some(format!("{} next() calls then {:?} visit {:?}, plain next() calls visit {:?}", k, fin, got, full));
+            }
+        }
+        Fin::Last => {
+            let l = it.last().map(|x| conv(x));
+            if l.as_ref() != rem.last() {
+                return Some(format!("{} next() calls then last() = {:?}, a plain traversal ends with {:?}", k, l, rem.last()));
+            }
+        }
+        Fin::Count => {
+            let c = it.count();
+            if c != rem.len() {
+                return Some(format!("{} next() calls then count() = {}, {} items remain", k, c, rem.len()));
+            }
+        }
+        Fin::Nth(j) => {
+            let x = it.nth(j).map(|x| conv(x));
+            let mut rest = Vec::new();
+            while let Some(y) = it.next() {
+                rest.push(conv(y));
+                if rest.len() > cap {
+                    break;
+                }
+            }
+            let exp_rest: &[X] = if j < rem.len() { &rem[j + 1..] } else { &[] };
+            if x.as_ref() != rem.get(j) || rest[..] != exp_rest[..] {
+                return Some(format!("{} next() calls then nth({}) = {:?} followed by {:?}; plain traversal: {:?}", k, j, x, rest, full));
+            }
+        }
+    }
+    None
 }
 
 /// right-hand operand of a mutable set operation
@@ -1283,20 +1520,20 @@ impl<K: Kind> World<K> {
 }
 
 // serde round trips: only for key types JSON can carry as map keys (strings) / in sequences
-fn serde_roundtrip_map<K: Kind>(m: &PrefixMap<K::P, u64>) -> Option<PrefixMap<K::P, u64>> {
+fn serde_roundtrip_map<K: Kind>(m: &PrefixMap<K::P, Tr<u64>>) -> Option<PrefixMap<K::P, Tr<u64>>> {
     use std::any::Any;
     let any: &dyn Any = m;
-    if let Some(m4) = any.downcast_ref::<PrefixMap<ipnet::Ipv4Net, u64>>() {
+    if let Some(m4) = any.downcast_ref::<PrefixMap<ipnet::Ipv4Net, Tr<u64>>>() {
         let s = serde_json::to_string(m4).expect("ORACLE:serde serialize failed");
-        let back: PrefixMap<ipnet::Ipv4Net, u64> = serde_json::from_str(&s).expect("ORACLE:serde deserialize failed");
+        let back: PrefixMap<ipnet::Ipv4Net, Tr<u64>> = serde_json::from_str(&s).expect("ORACLE:serde deserialize failed");
         let b: Box<dyn Any> = Box::new(back);
-        return Some(*b.downcast::<PrefixMap<K::P, u64>>().unwrap());
+        return Some(*b.downcast::<PrefixMap<K::P, Tr<u64>>>().unwrap());
     }
-    if let Some(m6) = any.downcast_ref::<PrefixMap<ipnet::Ipv6Net, u64>>() {
+    if let Some(m6) = any.downcast_ref::<PrefixMap<ipnet::Ipv6Net, Tr<u64>>>() {
         let s = serde_json::to_string(m6).expect("ORACLE:serde serialize failed");
-        let back: PrefixMap<ipnet::Ipv6Net, u64> = serde_json::from_str(&s).expect("ORACLE:serde deserialize failed");
+        let back: PrefixMap<ipnet::Ipv6Net, Tr<u64>> = serde_json::from_str(&s).expect("ORACLE:serde deserialize failed");
         let b: Box<dyn Any> = Box::new(back);
-        return Some(*b.downcast::<PrefixMap<K::P, u64>>().unwrap());
+        return Some(*b.downcast::<PrefixMap<K::P, Tr<u64>>>().unwrap());
     }
     None
 }
@@ -1335,6 +1572,13 @@ impl<K: Kind> WorldApi for World<K> {
     }
     fn keeps_host(&self) -> bool {
         K::KEEPS_HOST
+    }
+    fn value_accounting(&self) -> Option<(i64, usize)> {
+        if LIVE_WORLDS.load(Ordering::SeqCst) != 1 {
+            return None;
+        }
+        let physical: usize = self.maps.iter().map(|m| m.verif_arena().slots.iter().filter(|s| s.2).count()).sum();
+        Some((LIVE_VALUES.load(Ordering::SeqCst), physical))
     }
     fn reset(&mut self, nmaps: usize, nsets: usize) {
         self.maps = (0..nmaps).map(|_| PrefixMap::new()).collect();
@@ -1492,7 +1736,8 @@ impl<K: Kind> WorldApi for World<K> {
                     if let (Some(va), Some(vb)) = (va, vb) {
                         o.a = sa.last().cloned();
                         o.b = sb.last().cloned();
-                        let (items, fused, exceeded) = pair_ro::<K, $ta, $tb>(&va, vb, op, cap);
+                        let (items, fused, exceeded, pb) = pair_ro::<K, $ta, $tb>(&va, vb, op, cap);
+                        o.proto_bad = pb;
                         o.items = items;
                         o.fused = fused;
                         o.exceeded = exceeded;
@@ -1571,7 +1816,8 @@ impl<K: Kind> WorldApi for World<K> {
                                     pair_mut::<K, $t, $t>(&mut va, RhsMut::Ro((&vb).view()), op, cap, w)
                                 }
                             } else {
-                                let (items, fused, exceeded) = pair_ro::<K, $t, $t>(&(&va).view(), (&vb).view(), op, cap);
+                                let (items, fused, exceeded, pb) = pair_ro::<K, $t, $t>(&(&va).view(), (&vb).view(), op, cap);
+                                o.proto_bad = pb;
                                 o.fused = fused;
                                 o.exceeded = exceeded;
                                 MutOut { items, addrs_l: vec![], addrs_r: vec![], written_l: vec![], written_r: vec![] }
